@@ -73,8 +73,15 @@ def subtractFrom : Nat → List Rect → Rect → Nat → Option (List Rect)
         | none => none
         | some s' => subtractFrom fuel s' rect i
 
+/-- `tickit_rectset_subtract`: an empty hole is a no-op (`fix:` commit in /repo; before it the loop split
+    members around the empty hole for ever), otherwise the index loop from 0. -/
 def subtract (fuel : Nat) (s : List Rect) (rect : Rect) : Option (List Rect) :=
-  subtractFrom fuel s rect 0
+  if rect.lines ≤ 0 ∨ rect.cols ≤ 0 then some s else subtractFrom fuel s rect 0
+
+theorem subtract_of_nonempty (fuel : Nat) (s : List Rect) (rect : Rect) (h : rect.Nonempty) :
+    subtract fuel s rect = subtractFrom fuel s rect 0 := by
+  unfold subtract Rect.Nonempty at *
+  rw [if_neg (by omega)]
 
 /-- `tickit_rectset_translate`. -/
 def translate (s : List Rect) (downward rightward : Int) : List Rect :=
